@@ -5,7 +5,7 @@
 (* the multipliers exposed by the objects, the residual, the primal matrices, evaluated objects, and the     *)
 (* wrapper phase events.  Symbolic data are exact rationals (normal forms), solver output is fixed point.    *)
 (* Every clause below is one conjunct of a property, evaluated on the OBSERVED data.                         *)
-EXTENDS LinForm, Fix, TLC, Json, IOUtils
+EXTENDS MosekTask, Fix, TLC, Json, IOUtils
 CONSTANTS TolAbs,        \* absolute solver tolerance in units of 1e-6
           TolRelPpm      \* relative tolerance in parts per million of the magnitude involved
 Traces == ndJsonDeserialize(IOEnv.TRACE_FILE)
@@ -24,6 +24,7 @@ Clauses(S, P, hasPrev, TauSet) ==   \* S = this solve's observation, P = previou
       vecs == [i \in 1..nI |-> [e \in 1..Len(Items[i].e) |-> Flatten(DE(Items[i].e[e]))]]
       IsSc(i) == Items[i].k = "sc"
       solved == S.ret = "num"
+      prev == P
       \* ---------------- C05: what was sent
       leafFuns == SelectSeq(S.decl.funs, LAMBDA f : f.leaf = 1)
       RECURSIVE Cat(_, _, _)
@@ -224,7 +225,6 @@ Clauses(S, P, hasPrev, TauSet) ==   \* S = this solve's observation, P = previou
                  /\ \E k \in 1..Len(S.G) : Abs(S.G[k] - ph[lastSolve].G[k]) > 1
               THEN {<<"C14", "returned-instance-is-not-the-last-solution", 0>>} ELSE {}
       \* ---------------- C13: solving again
-      prev == P
       sameModel == hasPrev /\ S.edit = "none"
       \* every solve creates one fresh objective leaf (pep.py:404): compare the sent rows without the metric rows and
       \* without the coordinates of the objective leaves
@@ -250,12 +250,75 @@ Clauses(S, P, hasPrev, TauSet) ==   \* S = this solve's observation, P = previou
               THEN {<<"C13", "value-changed-on-resolve", S.retv - prev.retv>>} ELSE {}
       c13d == IF hasPrev /\ ~solved /\ \E k \in 1..Len(S.held) : S.held[k].out = "ok"
               THEN {<<"C13", "stale-value-after-unsuccessful-solve", 0>>} ELSE {}
+      \* ---------------- C11: the MOSEK task recorded from the real MosekWrapper (stand-in mosek module)
+      evs == S.task
+      hasTask == Len(evs) > 0
+      tk == TaskAtFirstSolve(evs)
+      tkAll == Fold(evs)
+      c11a == IF ~hasTask THEN {} ELSE {<<"C11", "task-call-ill-formed: " \o b[2], b[1]>> : b \in tkAll.bad}
+      c11b == IF hasTask /\ ~(Len(tk.bardims) >= 1 /\ tk.bardims[1] = np /\ tk.nvar = ne + 1 /\ tk.vfree = 0..(ne - 1))
+              THEN {<<"C11", "task-variables", tk.nvar>>} ELSE {}
+      wellFormed == hasTask /\ tkAll.bad = {} /\ Len(tk.bardims) >= 1 /\ tk.bardims[1] = np /\ tk.nvar = ne + 1
+      NVt == NVars(tk)
+      ExpRow(v, bar, n, a, b) ==      \* expected task row for an expression vector v, coupled (if bar > 0) to bar variable `bar` at (a, b)
+         [k \in 1..NVt |-> IF k <= ne THEN v[k]
+                           ELSE IF k = ne + 1 THEN Z
+                           ELSE IF k <= ne + 1 + npair THEN v[k - 1]
+                           ELSE IF bar > 0 /\ k = BarOff(tk, bar) + PairIdx(n, a, b) THEN MOne ELSE Z]
+      BoundIs(row, bk, q) == LET cb == tk.cb[row + 1] IN
+                                cb.bk = bk /\ Len(cb.n) = 2 /\ (bk = "up" \/ <<cb.n[1], cb.d[1]>> = q) /\ <<cb.n[2], cb.d[2]>> = q
+      RECURSIVE WalkM(_, _, _)
+      WalkM(k, row, m) ==
+         IF k > Len(S.sent) THEN [ok |-> TRUE, row |-> row, at |-> 0, rows |-> <<>>, bars |-> <<>>]
+         ELSE LET i == S.sent[k] IN
+              IF IsSc(i)
+              THEN IF row < tk.ncon /\ RowExact(tk, row) /\ RowVec(tk, row) = ExpRow(vecs[i][1], 0, 0, 0, 0)
+                      /\ BoundIs(row, IF Items[i].sense = "ineq" THEN "up" ELSE "fx", RNeg(vecs[i][1][NK]))
+                   THEN LET w == WalkM(k + 1, row + 1, m) IN [w EXCEPT !.rows = <<row>> \o @, !.bars = <<0>> \o @]
+                   ELSE [ok |-> FALSE, row |-> row, at |-> k, rows |-> <<>>, bars |-> <<>>]
+              ELSE LET n == Items[i].n  bar == m + 1 IN
+                   IF /\ row + n * n <= tk.ncon /\ bar < Len(tk.bardims) /\ tk.bardims[bar + 1] = n
+                      /\ \A a, b \in 1..n : LET r == row + (a - 1) * n + (b - 1) IN
+                            /\ RowExact(tk, r) /\ RowVec(tk, r) = ExpRow(vecs[i][(a - 1) * n + b], bar, n, a, b)
+                            /\ BoundIs(r, "fx", RNeg(vecs[i][(a - 1) * n + b][NK]))
+                   THEN LET w == WalkM(k + 1, row + n * n, m + 1) IN [w EXCEPT !.rows = <<row>> \o @, !.bars = <<bar>> \o @]
+                   ELSE [ok |-> FALSE, row |-> row, at |-> k, rows |-> <<>>, bars |-> <<>>]
+      wm == WalkM(1, 0, 0)
+      c11c == IF ~wellFormed THEN {} ELSE IF ~wm.ok THEN {<<"C11", "task-row-does-not-denote-sent-item", wm.at>>}
+              ELSE IF wm.row # tk.ncon THEN {<<"C11", "task-has-extra-rows", tk.ncon - wm.row>>} ELSE {}
+      objOK == /\ tk.sense = "maximize" /\ tk.barc = {}
+               /\ \A x \in tk.c : (x[1] = S.tau - 1 /\ x[2] = One) \/ (x[1] # S.tau - 1 /\ x[2] = Z)
+               /\ \E x \in tk.c : x[1] = S.tau - 1
+      c11d == IF wellFormed /\ ~objOK THEN {<<"C11", "task-objective-is-not-tau", 0>>} ELSE {}
+      PackIdx(n, r, c) == LET hi == IF r >= c THEN r ELSE c  lo == IF r >= c THEN c ELSE r IN      \* 0-based (r, c) -> 1-based index
+                          lo * n - (lo * (lo - 1)) \div 2 + (hi - lo) + 1
+      BarS(b) == LET X == {x \in tkAll.bars : x.bar = b} IN IF X = {} THEN <<>> ELSE (CHOOSE x \in X : TRUE).v
+      dualsFromTask == wellFormed /\ wm.ok /\ solved /\ haveDuals /\ Len(tkAll.gety) = tk.ncon
+      badDual == {k \in 1..Len(S.sent) :
+                    LET i == S.sent[k] IN
+                    IF IsSc(i) THEN Abs(Dual(i)[1] - tkAll.gety[wm.rows[k] + 1]) > 1
+                    ELSE LET n == Items[i].n  bs == BarS(wm.bars[k]) IN
+                         Len(bs) # NPairs(n) \/ \E a, b \in 1..n : Abs(Dual(i)[(a - 1) * n + b] + bs[PackIdx(n, a - 1, b - 1)]) > 1}
+      c11e == IF dualsFromTask /\ badDual # {} THEN {<<"C11", "multiplier-read-from-another-row-or-with-another-sign", CHOOSE k \in badDual : TRUE>>} ELSE {}
+      c11f == IF dualsFromTask /\ (Len(BarS(0)) # npair \/ \E k \in 1..npair : LET pr == ps[k] IN
+                    Abs(S.resid[k] + (IF pr[1] = pr[2] THEN 1 ELSE 2) * BarS(0)[PackIdx(np, pr[1] - 1, pr[2] - 1)]) > 2)
+              THEN {<<"C11", "residual-is-not-minus-barsj0", 0>>} ELSE {}
+      c11g == IF wellFormed /\ solved /\ S.opts.mode = "primal" /\ (S.tau > Len(tkAll.xx) \/ Abs(S.retv - tkAll.xx[S.tau]) > 1)
+              THEN {<<"C11", "returned-value-is-not-tau", 0>>} ELSE {}
+      \* cross back-end: this solve is the twin (same program, other back-end) of the previous one
+      twin == hasPrev /\ S.edit = "twin"
+      c11x == IF ~twin THEN {}
+              ELSE IF (prev.ret = "num") # solved THEN {<<"C11", "one-back-end-finds-a-value-the-other-does-not", 0>>}
+              ELSE IF solved /\ Abs(prev.retv - S.retv) > Tol(S.retv, 100) + 70 THEN {<<"C11", "back-ends-disagree-on-the-value", S.retv - prev.retv>>}
+              ELSE IF prev.np = np /\ NormSent(prev) # NormSent(S) THEN {<<"C11", "back-ends-were-sent-different-constraint-lists", 0>>} ELSE {}
+      cXa == IF S.crash # "" THEN {<<"ALL", "solve-raises: " \o S.crash, 0>>} ELSE {}
       info == IF doCert THEN {<<"INFO", "max-identity-error", maxKeyErr>>} ELSE {}
-  IN info \cup c05a \cup c05b \cup c05c \cup c05d \cup c05e
+  IN info \cup cXa \cup c05a \cup c05b \cup c05c \cup c05d \cup c05e
      \cup c01a \cup c01b \cup c01c \cup c01d \cup c01e \cup c01f \cup c01g
      \cup c02a \cup c02b \cup c02c \cup c02d \cup c02e \cup c02f \cup c02g \cup c02h \cup c02i
      \cup c14a \cup c14b \cup c14c \cup c14d \cup c14e
      \cup c13a \cup c13b \cup c13c \cup c13d
+     \cup c11a \cup c11b \cup c11c \cup c11d \cup c11e \cup c11f \cup c11g \cup c11x
 Tag(step, cl) == {<<step, c[1], c[2], c[3]>> : c \in cl}
 TInit == /\ tid \in 1..Len(Traces)
          /\ l = 1
